@@ -26,10 +26,11 @@ else raises UndecidedTruth -- the harness reports exit 2, never a verdict.
 from __future__ import annotations
 
 from fractions import Fraction
+import math as _math
 import numbers
 
 __all__ = ["Poly", "var", "angle", "const", "I", "ZERO", "ONE", "UnsupportedOp", "UndecidedTruth",
-           "reset_registry", "var_names"]
+           "reset_registry", "var_names", "diff"]
 
 
 class UnsupportedOp(Exception):
@@ -123,6 +124,14 @@ def _mono_mul(a, b):
     return tuple(out), sign, sq
 
 
+def _arith_operand(x):
+    """operand of a Poly arithmetic operator.  A shim tensor of ANY rank is left to the tensor's reflected
+    operator (torch: python scalar (op) 0-d tensor is a tensor, never a python scalar)."""
+    if getattr(type(x), "IS_SYMTORCH_TENSOR", False):
+        raise TypeError("tensor operand")
+    return Poly.coerce(x)
+
+
 class Poly:
     __slots__ = ("t",)
     __hash__ = None                 # == is semantic, not structural
@@ -207,7 +216,7 @@ class Poly:
 
     def __add__(self, other):
         try:
-            o = Poly.coerce(other)
+            o = _arith_operand(other)
         except TypeError:
             return NotImplemented
         if not o.t:
@@ -232,21 +241,21 @@ class Poly:
 
     def __sub__(self, other):
         try:
-            o = Poly.coerce(other)
+            o = _arith_operand(other)
         except TypeError:
             return NotImplemented
         return self + (-o)
 
     def __rsub__(self, other):
         try:
-            o = Poly.coerce(other)
+            o = _arith_operand(other)
         except TypeError:
             return NotImplemented
         return o + (-self)
 
     def __mul__(self, other):
         try:
-            o = Poly.coerce(other)
+            o = _arith_operand(other)
         except TypeError:
             return NotImplemented
         if not self.t or not o.t:
@@ -303,7 +312,7 @@ class Poly:
 
     def __truediv__(self, other):
         try:
-            o = Poly.coerce(other)
+            o = _arith_operand(other)
         except TypeError:
             return NotImplemented
         if not o.t:
@@ -346,6 +355,8 @@ class Poly:
         if not self.has_imag():
             return self
         return Poly({m: (-c if (m and m[0][0] == 0) else c) for m, c in self.t.items()})
+
+    conjugate = conj                # a symbolic `tensor.item()` stands for a python complex (`alpha.conjugate()`)
 
     def real(self):
         if not self.has_imag():
@@ -538,6 +549,24 @@ def p_sin(p):
     raise UnsupportedOp(f"sin of {p} (only 0 and +-<angle symbol> have an exact meaning here)")
 
 
+_QUARTER_TURN = Fraction(_math.pi / 2)     # the double nearest to pi/2 (2 * it is exactly the double math.pi)
+
+
+def _split_quarter_turns(p):
+    """p == I*k*fl(pi/2) + rest with k a non-zero integer, |k| <= 8  ->  (k, rest); else None.
+
+    Reading (part of A1, float arithmetic read as exact real arithmetic): the double constant
+    `torch.pi / 2` denotes pi/2, so exp(I*(x + k*pi/2)) = I^k * exp(I*x).  Only exact integer multiples of that
+    one double are recognised; any other constant stays without a meaning (UnsupportedOp)."""
+    c = p.t.get(((0, 1),))
+    if c is None or () in p.t:
+        return None
+    k = Fraction(c) / _QUARTER_TURN
+    if k.denominator != 1 or not 0 < abs(k) <= 8:
+        return None
+    return int(k), Poly({m: v for m, v in p.t.items() if m != ((0, 1),)})
+
+
 def p_exp(p):
     p = Poly.coerce(p)
     if not p.t:
@@ -546,7 +575,79 @@ def p_exp(p):
     if a and a[1] in ("+I", "-I"):
         cid, sid = _angle[a[0]]
         return Poly({((cid, 1),): 1, ((0, 1), (sid, 1)): 1 if a[1] == "+I" else -1})
-    raise UnsupportedOp(f"exp of {p} (only 0 and +-I*<angle symbol> have an exact meaning here)")
+    q = _split_quarter_turns(p)
+    if q:
+        k, rest = q
+        return (I ** (k % 4)) * p_exp(rest)
+    raise UnsupportedOp(f"exp of {p} (only 0, +-I*<angle symbol> and those plus I*k*pi/2 have an exact meaning here)")
+
+
+# ------------------------------------------------------------------------------------------
+# differentiation (used by specifications that are derivatives; never by the shim's torch ops)
+# ------------------------------------------------------------------------------------------
+def _dvar(p, vid):
+    """formal partial derivative with respect to the variable id `vid`"""
+    t = {}
+    for m, c in p.t.items():
+        for pos, (v, e) in enumerate(m):
+            if v == vid:
+                m2 = m[:pos] + (((v, e - 1),) if e > 1 else ()) + m[pos + 1:]
+                s = t.get(m2, 0) + c * e
+                if s:
+                    t[m2] = _nc(s)
+                else:
+                    t.pop(m2, None)
+                break
+    return Poly(t)
+
+
+def subs_const(p, values):
+    """substitute rational constants for variables: values = {variable name: int | Fraction}.  The caller
+    keeps angle companions consistent (cos -> 1 together with sin -> 0 for the literal phase 0)."""
+    p = Poly.coerce(p)
+    ids = {_ids[n]: Fraction(v) for n, v in values.items() if n in _ids}
+    if not ids:
+        return p
+    out = {}
+    for m, c in p.t.items():
+        keep = []
+        for v, e in m:
+            if v in ids:
+                c = c * ids[v] ** e
+            else:
+                keep.append((v, e))
+        if c:
+            k = tuple(keep)
+            s = out.get(k, 0) + c
+            if s:
+                out[k] = _nc(s)
+            else:
+                out.pop(k, None)
+    return Poly(out)
+
+
+def diff(p, name):
+    """partial derivative of p with respect to the real variable `name`; when `name` is a raw angle
+    registered with `angle(name)`, the derivative with respect to that angle:  d cos = -sin, d sin = cos.
+
+    Well defined on normal forms: the relations (I^2 = -1, sin^2 = 1 - cos^2 of *other* or the same angle)
+    are preserved -- D(c^2 + s^2 - 1) = -2cs + 2sc = 0 -- so differentiating any representative and
+    normalising the products gives the normal form of the derivative.  Refused (UnsupportedOp) for
+    expressions containing root variables, for the raw angle outside cos/sin, and for non-variables."""
+    p = Poly.coerce(p)
+    vid = _ids.get(name)
+    if vid is None:
+        return ZERO                           # the variable was never created: nothing depends on it
+    if vid == 0 or vid in _root_of or vid in _sin_to_cos or any(vid == c for c, _ in _angle.values()):
+        raise UnsupportedOp(f"derivative with respect to {name} (not an independent real variable or angle)")
+    if any(v in _root_of for m in p.t for v, _ in m):
+        raise UnsupportedOp("derivative of an expression containing square-root variables")
+    if vid in _angle:
+        if any(v == vid for m in p.t for v, _ in m):
+            raise UnsupportedOp(f"derivative of an expression containing the raw angle {name} outside cos/sin")
+        cid, sid = _angle[vid]
+        return _dvar(p, sid) * Poly({((cid, 1),): 1}) - _dvar(p, cid) * Poly({((sid, 1),): 1})
+    return _dvar(p, vid)
 
 
 def _isqrt_frac(q):
